@@ -451,6 +451,9 @@ type vcProp struct {
 	Twin bool
 	// Universes to explore (by name) — nil means the default set.
 	Universes []string
+	// QuickDeep names universes that are additionally explored to depth 4 (graph mode, from the
+	// empty base) in the quick tier.
+	QuickDeep []string
 	// After runs once after the explorations (extra, property-specific sub-checks).
 	After func(x *vcRun)
 }
